@@ -467,6 +467,9 @@ package eval
 //@     invariant [nothing-collected-before-the-first-element] (=> (= $j (+ (old (fld $p idx)) 1)) (= (len $strs) 0))
 //@     invariant [closing-bracket-first-stops-at-once] (=> (= (fld (idx (old (fld $p tokens)) (+ (old (fld $p idx)) 1)) typ) $rightType) (= $j (+ (old (fld $p idx)) 1)))
 //@     decreases (- (len $T) $j)
+//@   loop 2 (rangeindex)
+//@     invariant [elements-are-decimal-int64] (and (= (len $ints) (+ $rangeindex 1))
+//@          (forall ((k Int)) (! (=> (and (<= 0 k) (<= k $rangeindex)) (= (idx $ints k) (parseIntVal (idx $strs k)))) :pattern ((idx $ints k)))))
 
 //@ func parser.parseInfixExpression.buildTopOperators C06 C15
 //@   inline
@@ -519,6 +522,10 @@ package eval
 
 //@ func parser.parseInt C06 C01
 //@   requires [parser] (PARSER $p)
+//@   ensures [integer-literal-is-decimal-int64] (=> (not (= $ret0 0)) (and (= $ret1 ENil) (= (KIND (fld $ret0 node)) 1)
+//@        (= (fld (fld $ret0 node) value) (V_int64 (parseIntVal (fld (idx (old (fld $p tokens)) (old (fld $p idx))) val))))))
+//@   ensures [integer-token-accepted-iff-decimal-int64] (=> (and (< (old (fld $p idx)) (len (old (fld $p tokens)))) (= (fld (idx (old (fld $p tokens)) (old (fld $p idx))) typ) "integer"))
+//@        (= (= $ret1 ENil) (parseIntOk (fld (idx (old (fld $p tokens)) (old (fld $p idx))) val))))
 //@ func parser.parseStr C06 C01
 //@   requires [parser] (PARSER $p)
 //@ func parser.parseConst C06 C01
@@ -571,11 +578,16 @@ package eval
 //@     invariant [token-body-has-no-separator] (forall ((k Int)) (! (=> (and (<= $start k) (< k $i))
 //@          (and (not (isSpace (idx $A k))) (not (containsRune "()[];," (idx $A k))))) :pattern ((idx $A k))))
 //@     exit [token-is-maximal] (or (>= $i (len $A)) (isSpace (idx $A $i)) (containsRune "()[];," (idx $A $i)))
-//@ func parser.lex C06 C14
+//@ macro (INTTOKENS $p) (forall ((k Int)) (! (=> (and (<= 0 k) (< k (len (fld $p tokens))) (= (fld (idx (fld $p tokens) k) typ) "integer"))
+//@        (parseIntOk (fld (idx (fld $p tokens) k) val))) :pattern ((fld (idx (fld $p tokens) k) typ))))
+//@ func parser.lex C06 C14 C01
 //@   uses strings
 //@   requires [parser] (PARSER $p)
+//@   requires [no-tokens-yet] (= (len (fld $p tokens)) 0)
+//@   ensures [integer-tokens-are-decimal-int64] (INTTOKENS $p)
 //@   loop 1
 //@     invariant [cursor] (and (<= 0 $i) (<= $i (len $A)))
+//@     invariant [integer-tokens-are-decimal-int64] (INTTOKENS $p)
 
 // ---------------------------------------------------------------------------
 // C08 — configuration copies.  Stated on map contents, hence proved for every
@@ -986,6 +998,63 @@ package eval
 //@   loop 1 (rangeindex)
 //@     invariant [ast-closed] (ASTCLOSED)
 //@     invariant [calls-so-far] (and (ONLYSTATELESSCALLS $cc) (>= (heap dyn.n) (old (heap dyn.n))))
+
+// C01 / C06 / C09 — the layout pass calAndSetNodes (recursive; children are called BY CONTRACT).  TS / SS / inTree are the
+// tree-size vocabulary of `check`; pos(t) is a pre-order numbering of the AST nodes (ghost, given by its local rule
+// pos(child k of t) = pos(t) + 1 + size of the first k subtrees), so "t lies in the subtree of r" is the interval test INSUB.
+// Proved for every tree: the call appends exactly TS(root) nodes (so the program has exactly the size `check` computed and
+// the capacity buildExpr reserved), every appended slot holds a node, the slots laid out before are untouched, every AST
+// node of the subtree gets an index inside the appended range and every child's parent link is its parent's index, AST nodes
+// outside the subtree keep theirs, childCnt is the operand count; no index / nil failure for any tree of the stated shape.
+//@ ghost (declare-fun pos (Int) Int)
+//@ macro (LAYTREE) (forall ((t Int)) (! (=> (inTree t) (let ((nd (fld (ref astNode t) node)) (nc (len (fld (ref astNode t) children))))
+//@     (and (not (= nd 0)) (<= 1 (KIND nd)) (<= (KIND nd) 5) (<= nc 127)
+//@          (=> (or (= (KIND nd) 1) (= (KIND nd) 2)) (= nc 0))
+//@          (=> (= (KIND nd) 5) (ite (= (fld nd value) (V_keyword "if")) (= nc 4) (= nc 0)))
+//@          (forall ((k Int)) (! (=> (and (<= 0 k) (< k nc)) (= (pos (CHILD t k)) (+ (pos t) 1 (SS t k)))) :pattern ((CHILD t k))))))) :pattern ((inTree t))))
+//@ macro (INSUB $r $t) (and (<= (pos $r) (pos $t)) (< (pos $t) (+ (pos $r) (TS $r))))
+//@ macro (NLEN $e) (len (fld $e nodes))
+//@ macro (AIDX $t) (fld (ref astNode $t) idx)
+//@ macro (APAR $t) (fld (ref astNode $t) parentIdx)
+//@ macro (LAYPREFIX $e) (forall ((k Int)) (! (=> (and (<= 0 k) (< k (old (NLEN $e)))) (= (idx (fld $e nodes) k) (old (idx (fld $e nodes) k)))) :pattern ((idx (fld $e nodes) k))))
+//@ macro (LAYNONIL $e) (forall ((k Int)) (! (=> (and (<= (old (NLEN $e)) k) (< k (NLEN $e))) (not (= (idx (fld $e nodes) k) 0))) :pattern ((idx (fld $e nodes) k))))
+//@ macro (LAYOUTSIDE $lo $hi) (and
+//@     (forall ((t Int)) (! (=> (not (and (<= $lo (pos t)) (< (pos t) $hi))) (= (AIDX t) (old (AIDX t)))) :pattern ((AIDX t))))
+//@     (forall ((t Int)) (! (=> (not (and (<= $lo (pos t)) (< (pos t) $hi))) (= (APAR t) (old (APAR t)))) :pattern ((APAR t)))))
+//@ macro (LAYINSIDE $e $lo $hi) (forall ((t Int)) (! (=> (and (inTree t) (<= $lo (pos t)) (< (pos t) $hi))
+//@       (and (<= (old (NLEN $e)) (AIDX t)) (< (AIDX t) (NLEN $e)) (<= -1 (APAR t)) (< (APAR t) (NLEN $e))
+//@            (forall ((k Int)) (! (=> (and (<= 0 k) (< k (len (fld (ref astNode t) children)))) (= (APAR (CHILD t k)) (AIDX t))) :pattern ((CHILD t k))))))
+//@       :pattern ((inTree t))))
+//@ func calAndSetNodes C01 C06 C09
+//@   requires [tree] (and (not (= $e 0)) (inTree $root) (ASTOK) (LAYTREE))
+//@   ensures [subtree-appended] (= (NLEN $e) (+ (old (NLEN $e)) (TS $root)))
+//@   ensures [root-position] (and (<= (old (NLEN $e)) (AIDX $root)) (< (AIDX $root) (NLEN $e)) (= (idx (fld $e nodes) (AIDX $root)) (fld $root node)) (= (APAR $root) -1))
+//@   ensures [earlier-slots-kept] (LAYPREFIX $e)
+//@   ensures [every-slot-holds-a-node] (LAYNONIL $e)
+//@   ensures [operand-count] (= (fld (fld $root node) childCnt) (len (fld $root children)))
+//@   ensures [subtree-indexed] (LAYINSIDE $e (pos $root) (+ (pos $root) (TS $root)))
+//@   ensures [rest-of-tree-untouched] (LAYOUTSIDE (pos $root) (+ (pos $root) (TS $root)))
+//@   loop 1 (rangeindex)
+//@     invariant [laid-out-so-far] (and (= (NLEN $e) (+ (old (NLEN $e)) (SS $root (+ $rangeindex 1)))) (= (KIND (fld $root node)) 3) (= (APAR $root) -1))
+//@     invariant [earlier-slots-kept] (LAYPREFIX $e)
+//@     invariant [every-slot-holds-a-node] (LAYNONIL $e)
+//@     invariant [operands-indexed] (LAYINSIDE $e (+ (pos $root) 1) (+ (pos $root) 1 (SS $root (+ $rangeindex 1))))
+//@     invariant [rest-of-tree-untouched] (LAYOUTSIDE (pos $root) (+ (pos $root) 1 (SS $root (+ $rangeindex 1))))
+//@   loop 2 (rangeindex)
+//@     invariant [laid-out-so-far] (and (= (NLEN $e) (+ (old (NLEN $e)) 1 (SS $root (+ $rangeindex 1)))) (= (KIND (fld $root node)) 4)
+//@          (= (AIDX $root) (old (NLEN $e))) (= (idx (fld $e nodes) (old (NLEN $e))) (fld $root node)) (= (APAR $root) -1))
+//@     invariant [earlier-slots-kept] (LAYPREFIX $e)
+//@     invariant [every-slot-holds-a-node] (LAYNONIL $e)
+//@     invariant [operands-indexed] (LAYINSIDE $e (+ (pos $root) 1) (+ (pos $root) 1 (SS $root (+ $rangeindex 1))))
+//@     invariant [rest-of-tree-untouched] (LAYOUTSIDE (pos $root) (+ (pos $root) 1 (SS $root (+ $rangeindex 1))))
+//@   loop 3 (rangeindex)
+//@     invariant [laid-out] (and (= (NLEN $e) (+ (old (NLEN $e)) (TS $root))) (<= (old (NLEN $e)) (AIDX $root)) (< (AIDX $root) (NLEN $e))
+//@          (= (idx (fld $e nodes) (AIDX $root)) (fld $root node)) (= (APAR $root) -1) (= (fld (fld $root node) childCnt) (len (fld $root children))))
+//@     invariant [earlier-slots-kept] (LAYPREFIX $e)
+//@     invariant [every-slot-holds-a-node] (LAYNONIL $e)
+//@     invariant [operands-indexed] (LAYINSIDE $e (+ (pos $root) 1) (+ (pos $root) (TS $root)))
+//@     invariant [rest-of-tree-untouched] (LAYOUTSIDE (pos $root) (+ (pos $root) (TS $root)))
+//@     invariant [links-so-far] (forall ((k Int)) (! (=> (and (<= 0 k) (<= k $rangeindex)) (= (APAR (CHILD $root k)) (AIDX $root))) :pattern ((CHILD $root k))))
 
 // C02 / C06 — nesting reduction: rewrites the operand list only of the and/or node at hand, keeps the tree closed
 // (every operand of every node is a node of the tree, operator names stay strings), writes operand arrays only into
